@@ -272,3 +272,18 @@ Proof.
     - cbn [gsizeof gsum_elems]. rewrite IH1. reflexivity. }
   intros fuel. apply H.
 Qed.
+
+(** * An interior pointer: a pointer to the first element of an array inside the pointee the
+    traversal is in has the address of that pointee, and still costs 8 + its own pointee *)
+Theorem interior_pointer_counted : forall x l,
+  supported x -> Forall supported l ->
+  sizeof (VPtr (Some (VStruct [VArray (x :: l); VPtr (Some x)])))
+  = Some ((8 + sizes (x :: l)) + (8 + spec_size x)).
+Proof.
+  intros x l Sx Sl. rewrite sizeof_structural.
+  - rewrite spec_size_ptr, spec_size_struct. unfold sizes at 1. cbn [map].
+    rewrite !zsum_cons, spec_size_array, spec_size_ptr. cbn [zsum fold_right]. f_equal. lia.
+  - unfold supported in *. cbn [supportedb forallb]. rewrite Sx.
+    replace (forallb supportedb l) with true; [reflexivity|].
+    symmetry. apply forallb_forall. rewrite Forall_forall in Sl. exact Sl.
+Qed.
